@@ -61,6 +61,7 @@ type genParams struct {
 	minSteps    int
 	maxSteps    int
 	allowExpiry bool
+	long        bool // long-lived fence: the fence under test has no COMMANDS/MATCH/WHERE so that most writes notify
 }
 
 var idPool = []string{"a1", "a2", "b1", "b2", "c1"}
@@ -269,13 +270,21 @@ func genCase(rt *rapid.T, detectIdx int, p genParams) Case {
 	hy := math.Exp(unif(rt, "main-size", math.Log(0.003), math.Log(0.25)))
 	main := FenceSpec{Key: 0, Cmd: cmdFor(rt, "main-cmd", kind), Area: drawArea(rt, "main", kind, lat, lon, hy),
 		Detect: detectSubset(detectIdx), Obs: "all3"}
-	if pct(rt, "main-commands") < 60 {
-		main.Commands = drawSubset(rt, "main-accept", []string{"set", "fset", "del", "drop"})
+	if !p.long {
+		if pct(rt, "main-commands") < 60 {
+			main.Commands = drawSubset(rt, "main-accept", []string{"set", "fset", "del", "drop"})
+		}
+		if rapid.Bool().Draw(rt, "main-match") {
+			main.Match = pick(rt, "main-glob", matchPool)
+		}
+		main.Where = drawWhere(rt, "main-where")
 	}
-	if rapid.Bool().Draw(rt, "main-match") {
-		main.Match = pick(rt, "main-glob", matchPool)
+	switch m := pct(rt, "main-modifier"); {
+	case m < 25:
+		main.Limit = intn(rt, "main-limit", 1, 5)
+	case m < 33:
+		main.Sparse = intn(rt, "main-sparse", 1, 4)
 	}
-	main.Where = drawWhere(rt, "main-where")
 	cs.Fences = append(cs.Fences, main)
 	mfr := main.Area.frame()
 	g.frames = append(g.frames, mfr)
@@ -323,6 +332,9 @@ func genCase(rt *rapid.T, detectIdx int, p genParams) Case {
 		}
 		if pct(rt, lb+"-wh") < 30 {
 			f.Where = drawWhere(rt, lb+"-where")
+		}
+		if pct(rt, lb+"-lim") < 15 {
+			f.Limit = intn(rt, lb+"-limit", 1, 5)
 		}
 		cs.Fences = append(cs.Fences, f)
 		g.frames = append(g.frames, f.Area.frame())
@@ -391,6 +403,9 @@ func genCase(rt *rapid.T, detectIdx int, p genParams) Case {
 		}
 	}
 	g.closing()
+	if pct(rt, "pipeline") < 35 {
+		cs.Pipeline = pick(rt, "burst", []int{4, 16, 64})
+	}
 	return cs
 }
 
@@ -457,6 +472,8 @@ type caseInfo struct {
 	others   int
 	skipped  bool
 	expected int
+	events   int // writes for which the fence under test had to render a notification
+	maxOther int // the same, maximum over the other fences
 }
 
 func stepArgs(s Step, key string) [][]string {
@@ -509,6 +526,7 @@ type fenceRun struct {
 	expLive  []xmsg
 	hookSt   *stream
 	live     *liveObs
+	events   int
 }
 
 func mustOK(v t38.Value, err error, what string) {
@@ -621,10 +639,14 @@ func runCase(t failer, c *ev.Collector, cs Case) (info caseInfo) {
 					info.labels["script-tr:"+tr.Kind] = true
 				}
 			}
+			dets := r.spec.filterDetect(nat)
+			if len(dets) > 0 {
+				r.events++ // counted by the fence's scan writer even when COMMANDS drops the message afterwards
+			}
 			if !r.spec.accepts(cmd) {
 				continue
 			}
-			for _, d := range r.spec.filterDetect(nat) {
+			for _, d := range dets {
 				m := xmsg{Cmd: cmd, Detect: d, ID: id, Obj: canonObj(cur), Fields: canonFields(cur.fields), Step: stepNo}
 				r.expHook = append(r.expHook, m)
 				r.expLive = append(r.expLive, m)
@@ -660,13 +682,51 @@ func runCase(t failer, c *ev.Collector, cs Case) (info caseInfo) {
 			}
 		}
 	}
+	// replies still owed by the server when the case is left early (runs before
+	// the observer clean-up above, which talks on the same connection)
+	outstanding := 0
+	defer func() {
+		for ; outstanding > 0; outstanding-- {
+			if _, err := ctl.Recv(); err != nil {
+				break
+			}
+		}
+	}()
+	batch := max(1, cs.Pipeline)
+	sentUpTo := 0
 	for n, s := range cs.Steps {
 		if info.skipped {
 			break
 		}
+		if n == sentUpTo {
+			// send the next burst; a step that waits for an expiry travels alone
+			end := n
+			for end < len(cs.Steps) && end-n < batch {
+				if cs.Steps[end].Op == "setex" {
+					if end == n {
+						end++
+					}
+					break
+				}
+				end++
+			}
+			for k := n; k < end; k++ {
+				for _, args := range stepArgs(cs.Steps[k], keys[cs.Steps[k].Key]) {
+					if err := ctl.Send(args...); err != nil {
+						fail("transport", fmt.Sprintf("step %d %s: %v", k, t38.CmdString(args), err))
+					}
+					outstanding++
+				}
+			}
+			sentUpTo = end
+			if end-n > 1 {
+				info.labels["pipelined-burst"] = true
+			}
+		}
 		objs := st.keys[s.Key]
 		for _, args := range stepArgs(s, keys[s.Key]) {
-			v, err := ctl.Do(args...)
+			v, err := ctl.Recv()
+			outstanding--
 			if err != nil {
 				fail("transport", fmt.Sprintf("step %d %s: %v", n, t38.CmdString(args), err))
 			}
@@ -801,7 +861,9 @@ func runCase(t failer, c *ev.Collector, cs Case) (info caseInfo) {
 		if produced[i] && runs[i].spec.Key == cs.Fences[0].Key {
 			info.touched++
 		}
+		info.maxOther = max(info.maxOther, runs[i].events)
 	}
+	info.events = runs[0].events
 
 	// --- channels: a PUBLISH sentinel closes the subscription stream exactly
 	v, err = ctl.Do("PUBLISH", closeCh, "end-of-"+prefix)
@@ -969,6 +1031,24 @@ func record(c *ev.Collector, cs Case, info caseInfo) {
 	if main.Where != nil {
 		c.Label("with-where")
 	}
+	if main.Limit > 0 {
+		c.Label("with-limit(impl-mirrored:no-effect-on-a-fence)")
+		if info.events >= 3*main.Limit {
+			c.Label("with-limit-and>=3n-events")
+		}
+	}
+	if main.Sparse > 0 {
+		c.Label("with-sparse(impl-mirrored:no-effect-on-a-fence)")
+	}
+	if info.events >= 100 {
+		c.Label("fence-under-test>=100-events")
+	}
+	if info.events >= 250 {
+		c.Label("fence-under-test>=250-events")
+	}
+	if info.maxOther >= 100 {
+		c.Label("other-fence>=100-events")
+	}
 	c.LabelN("expected-channel-messages", info.expected)
 	if info.skipped {
 		return
@@ -1091,6 +1171,127 @@ func matrixCase(d, ki int, kind string, acc []string) Case {
 		cs.Steps[i].Phase = "closing"
 	}
 	return cs
+}
+
+// longLivedCase: one object cycles inside / outside / across one area for
+// `cycles` rounds (7 writes each: enter, inside move, FSET inside, exit,
+// FSET outside, outside move, cross), so that a single long-lived channel,
+// webhook and live fence each have to render hundreds of notifications
+// (the default item limit of a fence's scan writer is 100; LIMIT n lowers it).
+func longLivedCase(kind string, detect []string, limit, cycles int) Case {
+	lat, lon := 41.25, -87.5
+	cmd := "within"
+	if kind == "point" {
+		cmd = "nearby"
+	}
+	var a Area
+	switch kind {
+	case "point", "circle":
+		a = Area{Kind: kind, Lat: lat, Lon: lon, R: 4000}
+	case "bounds", "object":
+		a = Area{Kind: kind, Lat: lat, Lon: lon, HH: 0.04, HW: 0.06}
+	case "tile":
+		x, y := tileOf(lat, lon, 10)
+		a = Area{Kind: "tile", TX: x, TY: y, TZ: 10}
+	default:
+		a = Area{Kind: "hash", Hash: geohashEncode(lat, lon, 5)}
+	}
+	main := FenceSpec{Cmd: cmd, Area: a, Detect: detect, Limit: limit, Obs: "all3"}
+	// two more long-lived fences over the same area with other options
+	o1 := FenceSpec{Cmd: cmd, Area: a, Detect: []string{"inside"}, Limit: 3, Obs: "chan"}
+	o2 := FenceSpec{Cmd: cmd, Area: a, Detect: []string{"enter", "exit"}, Obs: "hook"}
+	cs := Case{Fences: []FenceSpec{main, o1, o2}}
+	fr := a.frame()
+	q := 0
+	at := func(u, v float64) {
+		la, lo := fr.denorm(u, v)
+		q++
+		cs.Steps = append(cs.Steps, Step{Op: "set", Key: 0, ID: "a1", Kind: "point", Lat: round7(la), Lon: round7(lo),
+			Fields: []Field{{"q", q}}, Phase: "closing"})
+	}
+	fs := func() {
+		q++
+		cs.Steps = append(cs.Steps, Step{Op: "fset", Key: 0, ID: "a1", Fields: []Field{{"q", q}}, Phase: "closing"})
+	}
+	at(-3, 0.2) // new-out
+	for c := 0; c < cycles; c++ {
+		j := 0.002 * float64(c%50)
+		at(0.1+j, 0.15) // out-in
+		at(-0.2, 0.1+j) // in-in
+		fs()            // fset-in
+		at(0.2+j, 2.6)  // in-out
+		fs()            // fset-out
+		at(3, 0.3+j)    // out-out, the path stays >= 2 units from the centre: no crossing
+		at(-3, -0.2-j)  // straight through the centre region: cross
+	}
+	cs.Steps = append(cs.Steps, Step{Op: "del", Key: 0, ID: "a1", Phase: "closing"})
+	return cs
+}
+
+// TestC05_LongLived: fences that stay up for hundreds of notifying writes, and
+// fences defined with LIMIT n, must notify for every single write.
+func TestC05_LongLived(t *testing.T) {
+	c := ev.New("C05", "longlived", "exploration")
+	t.Cleanup(c.Flush)
+	c.Rule("(a, shard 0) deterministic: one object cycles enter / move inside / FSET / exit / FSET / move outside / cross through one area observed by a channel, a webhook and a live fence (+2 other long-lived fences): 90 cycles = 631 writes for fences without LIMIT and with LIMIT 40 (>= 180 notifying writes through each fence even for DETECT enter,exit; 630 for default detection), 25 cycles for LIMIT 1..5 (>= 50 >= 3n); x DETECT {absent, inside, enter+exit, outside+cross} x area kinds; (b) generated long cases (260..320 random steps, fence under test without COMMANDS/MATCH/WHERE, DETECT containing inside or outside or absent, optional LIMIT/SPARSE). Every stream is compared message by message as in the fence sub-check. Non-trivial: the fence under test had to render >= 100 notifications (or >= 3n with LIMIT n); distinct by (area, DETECT, LIMIT, events).")
+	c.Assume("LIMIT n / SPARSE n in a fence definition are accepted by the grammar and documented only for searches; the implementation ignores them for notifications and the statement ('every SET and FSET ... produces exactly the notifications') leaves no room for dropping the n-th: modelled as no effect, labelled impl-mirrored")
+	detects := [][]string{nil, {"inside"}, {"enter", "exit"}, {"outside", "cross"}}
+	if ev.Shard() == 0 {
+		n := 0
+		for _, limit := range []int{0, 40, 1, 2, 3, 4, 5} {
+			for di, det := range detects {
+				cycles := 25
+				if limit == 0 || limit == 40 {
+					cycles = 90
+				}
+				kind := areaKinds[n%len(areaKinds)]
+				n++
+				cs := longLivedCase(kind, det, limit, cycles)
+				if n%2 == 0 {
+					cs.Pipeline = 64
+				}
+				c.Case()
+				info := runCase(t, c, cs)
+				if info.skipped {
+					t.Fatalf("long-lived case skipped (margin): %s", describeFence(cs.Fences[0]))
+				}
+				need := 100
+				if limit > 0 {
+					need = 3 * limit
+				}
+				if info.events < need {
+					t.Fatalf("long-lived case too short: %d events", info.events)
+				}
+				for l := range info.labels {
+					c.Label(l)
+				}
+				c.Label(fmt.Sprintf("limit:%d", limit))
+				c.Label("detect:" + detectName(det))
+				c.LabelN("notifying-writes-through-fence-under-test", info.events)
+				c.NonTrivial(fmt.Sprintf("%s|%d|%d|%d", kind, di, limit, info.events))
+				if c.WantSample() {
+					c.Sample(map[string]any{"fence": describeFence(cs.Fences[0]), "writes": len(cs.Steps), "notifying_writes": info.events})
+				}
+			}
+		}
+	}
+	// (b) generated long cases
+	p := genParams{maxOthers: 4, minSteps: 260, maxSteps: 320, long: true}
+	masks := []int{0, 1, 2, 3, 5, 7, 9, 11, 18, 19, 31} // absent, or containing inside (bit 0) / outside (bit 1)
+	ev.Rapid("longlived", ev.Pick(6, 40))
+	rapid.Check(t, func(rt *rapid.T) {
+		cs := genCase(rt, pick(rt, "detect-mask", masks), p)
+		c.Case()
+		info := runCase(rt, c, cs)
+		record(c, cs, info)
+		if info.skipped {
+			return
+		}
+		main := cs.Fences[0]
+		if info.events >= 100 || (main.Limit > 0 && info.events >= 3*main.Limit) {
+			c.NonTrivial(fmt.Sprintf("gen|%s|%s|%d|%d", main.Area.Kind, detectName(main.Detect), main.Limit, info.events))
+		}
+	})
 }
 
 func TestReplay(t *testing.T) {
